@@ -1,4 +1,6 @@
 import Mercure.Lemmas.Retention
+import Mercure.Model.Retention64
+import Mercure.Generated.Facts
 /-
   C10 — History retention keeps a contiguous most-recent window of the configured size.
 -/
@@ -40,6 +42,70 @@ theorem replay_from_retained_complete (size : Nat) (ps : List (Bool × Update))
     negotiate (rRun size ps).db e.2.id = (e.2.id, (ps.map (·.2)).drop e.1) :=
   Mercure.rRun_replay size ps huniq hne i e he
 
+/-! ### machine width -/
+section Width
+open Mercure.Retention64
+
+/-- `cleanup` on uint64 deletes exactly the keys the `Nat`-level `retain` drops — for every 64-bit
+    size, last sequence number and key (no wrap-around: the guard `size ≥ last` precedes the
+    subtraction). -/
+theorem cleanup64_refines_retain (size lastID key : BitVec 64) :
+    deletes size lastID key =
+      (!(size.toNat == 0 || size.toNat ≥ lastID.toNat) && decide (key.toNat ≤ lastID.toNat - size.toNat)) := by
+  unfold deletes removeUntil
+  by_cases h0 : size = 0#64
+  · subst h0; simp
+  · have hs : size.toNat ≠ 0 := by
+      intro h; apply h0; apply BitVec.eq_of_toNat_eq; simpa using h
+    have hbeq : (size == 0#64) = false := by simpa using h0
+    have hsz : (size.toNat == 0) = false := by simpa using hs
+    by_cases hle : lastID.toNat ≤ size.toNat
+    · have hu : lastID.ule size = true := by simpa [BitVec.ule] using hle
+      have hd : decide (size.toNat ≥ lastID.toNat) = true := by simpa using hle
+      rw [hbeq, hu, hsz, hd]; rfl
+    · have hu : lastID.ule size = false := by simpa [BitVec.ule] using hle
+      have hd : decide (size.toNat ≥ lastID.toNat) = false := by simpa using hle
+      have hsub : (lastID - size).toNat = lastID.toNat - size.toNat := by
+        rw [BitVec.toNat_sub]; have := lastID.isLt; have := size.isLt; omega
+      rw [hbeq, hu, hsz, hd]
+      simp only [Bool.or_self, Bool.false_eq_true, if_false, Bool.not_false, Bool.true_and]
+      simp only [BitVec.ule, hsub]
+
+/-- The retained window computed at machine width is the model's: filtering a bucket with `deletes`
+    is `retain`. -/
+theorem retain64 (size lastID : BitVec 64) (db : List (Nat × Update))
+    (hk : ∀ e ∈ db, e.1 < 2 ^ 64) :
+    db.filter (fun e => !deletes size lastID (BitVec.ofNat 64 e.1)) = retain size.toNat lastID.toNat db := by
+  unfold retain
+  by_cases hg : (size.toNat == 0 || size.toNat ≥ lastID.toNat) = true
+  · rw [if_pos hg]
+    apply List.filter_eq_self.mpr
+    intro e _
+    rw [cleanup64_refines_retain, hg]; rfl
+  · rw [if_neg hg]
+    apply List.filter_congr
+    intro e he
+    have hlt := hk e he
+    rw [cleanup64_refines_retain]
+    have : (size.toNat == 0 || size.toNat ≥ lastID.toNat) = false := by simpa using hg
+    rw [this]
+    simp only [Bool.not_false, Bool.true_and, BitVec.toNat_ofNat, Nat.mod_eq_of_lt hlt]
+    by_cases hc : e.1 ≤ lastID.toNat - size.toNat
+    · simp [hc]
+    · simp [hc]; omega
+
+/-- Witness for the signed rewrite (seeded change N-C10): with size 2^64−1 and three stored updates it
+    deletes the key just written, the unsigned code deletes nothing. -/
+theorem signed_rewrite_deletes_everything :
+    deletesSigned (BitVec.ofNat 64 (2 ^ 64 - 1)) 3#64 3#64 = true ∧
+    deletes (BitVec.ofNat 64 (2 ^ 64 - 1)) 3#64 3#64 = false := by decide
+
+/-- The obligation against /repo (regenerated from bolt.go on every run): the guard of `cleanup` is
+    the unsigned `t.size >= lastID`, the bound is `lastID - t.size`, and the function converts
+    neither to a signed type. -/
+theorem repo_cleanup_guard : Facts.cleanupUnsignedGuard = true := by decide
+end Width
+
 /-! non-vacuity -/
 example : ((rRun 2 [(false, ⟨['a'], [], false, [], [], 0⟩), (false, ⟨['b'], [], false, [], [], 0⟩),
                     (false, ⟨['c'], [], false, [], [], 0⟩), (true, ⟨['d'], [], false, [], [], 0⟩)]).db.map (·.1)) = [3, 4] := by
@@ -53,3 +119,7 @@ end Mercure.C10
 #print axioms Mercure.C10.retained_eq_min_when_always_cleaning
 #print axioms Mercure.C10.size_zero_keeps_all
 #print axioms Mercure.C10.replay_from_retained_complete
+#print axioms Mercure.C10.cleanup64_refines_retain
+#print axioms Mercure.C10.retain64
+#print axioms Mercure.C10.signed_rewrite_deletes_everything
+#print axioms Mercure.C10.repo_cleanup_guard
